@@ -187,6 +187,18 @@ CLAIMED = {
              'property restricts them); the two regular expressions must have the modelled shape (else exit 2); '
              'Counter\'s dropping of non-positive totals is not modelled.',
         ref='DESIGN.md section 4 C14'),
+    'C15': dict(
+        technique='abstract interpretation of read_excel and its setters on a mock DataFrame (documented header strings, '
+                  'symbolic cell values, empty cells); comparison of the produced records with the documented mapping',
+        text='Decides for sheets covering every documented special header (element.X, formula, repeated vib_wavenumber, '
+             'rot_temperature, list.name(.i), dict.name.key, nasa.a_low.i/a_high.i, statmech_model for all 5 presets, '
+             'every per-mode model name plus the EmptyMode fallback and unknown names) and ordinary columns with '
+             'surrounding blanks that there is one record per row in row order containing exactly the non-empty cells, '
+             'mapped as documented for all cell values at once; rows with disjoint column subsets show that nothing '
+             'leaks between rows and empty cells never appear; the presets table names classes of the right mode.',
+        note=STATIC_NOTE + 'pandas (read_excel, duplicate-header mangling, NaN detection) and the ASE/VASP readers are '
+             'outside the analysis; the DataFrame is mocked as (header, cell) pairs in column order.',
+        ref='DESIGN.md section 4 C15'),
     'C16': dict(
         technique='abstract interpretation of get_net_comp with scipy.optimize.minimize as an uninterpreted, recording '
                   'solver; symbolic differentiation of the objective and constraint handed to it',
